@@ -446,7 +446,54 @@ def run(ctx):
                 "distinct by (start, period, links, duration-class string, stop point) per epoch")
     ctx.evaluations = len(scripts)
     app_sessions(ctx)
+    long_run(ctx, mod)
     threads_stage(ctx)
+
+
+def long_run(ctx, mod):
+    """More than one hyperframe of ticks in one uninterrupted run of the real worker (3 1/2 hours
+    of virtual time): drift, frame numbers and indications at the points where the frame counter
+    and the tick count wrap.  Sparse log (every 256th tick, every tick around the wraps)."""
+    vclock = load_vclock()
+    HYPER = 2715648
+    rng = ctx.rng
+    traces = []
+    runs = [(rng.choice([0, 7, HYPER - 1, rng.randrange(HYPER)]), rng.choice([1, 51, 102, 216]))]
+    if ctx.thorough:
+        runs += [(HYPER - 1, 102), (1234567, 13)]
+    for k, (start, period) in enumerate(runs):
+        n = HYPER + 3000
+        wrap_at = (HYPER - start) % HYPER            # tick index at which the frame number wraps
+        wins = [(0, 40), (wrap_at - 40, wrap_at + 40), (HYPER - 40, HYPER + 40), (n - 40, n)]
+        try:
+            r = vclock.run_long(mod, start, period, n, every=256, windows=wins)
+        except vclock.RigError as e:
+            ctx.extra["long_run_not_representable"] = str(e)
+            ctx.log("long run: not representable in the synchronous rig (%s)" % e)
+            return
+        if r["crash"]:
+            ctx.violation("C09/crash/long-run", "uninterrupted run of %d ticks: the generator raised %s" % (n, r["crash"]),
+                          dict(start=start, period=period))
+            continue
+        if r["ticks"] < n:
+            ctx.violation("C09/long.stopped-early", "the worker ended after %d of %d ticks" % (r["ticks"], n),
+                          dict(start=start, period=period))
+        traces.append(dict(id="L%d" % k, cfg=dict(start=start, period=period, T=r["T"] or 0), ev=r["ev"]))
+        ctx.count(r["ticks"])
+    if not traces:
+        return
+    res, stats = tlc.validate_traces("ClckGenLong.tla", "ClckGenLong.cfg", traces, scratch=ctx.scratch, parallel=3, timeout=1800)
+    ctx.add_tv("TV ClckGenLong (one hyperframe + 3000 ticks in one run, sparse log)", stats, len(traces))
+    byid = {t["id"]: t for t in traces}
+    for v in res:
+        tr = byid[v["id"]]
+        if v["reached"] != v["n"]:
+            e = tr["ev"][v["reached"]]
+            ctx.violation("C09/%s" % (v["tag"] or "no-action-enabled"),
+                          "long run %s (start %d, period %d) rejected at logged event %d/%d: %s"
+                          % (v["id"], tr["cfg"]["start"], tr["cfg"]["period"], v["reached"] + 1, v["n"], json.dumps(e)),
+                          dict(cfg=tr["cfg"], events=tr["ev"][max(0, v["reached"] - 3):v["reached"] + 2]))
+    ctx.extra["long_runs"] = [dict(start=t["cfg"]["start"], period=t["cfg"]["period"], logged_events=len(t["ev"])) for t in traces]
 
 
 def app_sessions(ctx):
